@@ -18,7 +18,15 @@ pub fn render_pragma_gap(p: &Value, gap: &str) -> String {
             let v = as_i64s(&p["ver"]);
             format!("pragma{}solidity {}{}.{}.{};", gap, p["op"].as_str().unwrap_or(""), v[0], v[1], v[2])
         }
-        "experimental" => "pragma experimental ABIEncoderV2;".to_string(),
+        "experimental" => {
+            // an experimental pragma may name its feature by a string that looks like a version (`"v0.5.0"`)
+            let v = as_i64s(&p["ver"]);
+            if v.iter().any(|x| *x != 0) {
+                format!("pragma experimental \"v{}.{}.{}\";", v[0], v[1], v[2])
+            } else {
+                "pragma experimental ABIEncoderV2;".to_string()
+            }
+        }
         // a top-level item before the (remaining) pragmas, on one line
         "item" => "interface IPrelude { function ping() external; }".to_string(),
         _ => "pragma abicoder v2;".to_string(),
